@@ -49,4 +49,39 @@ theorem fireBranch_shoots : "i.gun.Shoot(ammo)" ∈ Gen.Waiter.fireBranch := by 
 theorem discardBranch_eq :
     Gen.Waiter.discardBranch = ["i.aggregator.Report(netsample.DiscardedShootSample())"] := rfl
 
+theorem IsFinished_eq (c : Bool) (left : Int) : Gen.Waiter.IsFinished c left = isFinished c left := by
+  unfold Gen.Waiter.IsFinished isFinished
+  cases c
+  · by_cases h : left = 0 <;> simp [h]
+  · simp
+
+/-- the regenerated pass of the loop of `(*instance).Run` (Acquire, Wait, IsSlowDown AFTER Wait, Shoot | Report) is the
+model's `iteration` with the repaired `Wait`, hence `runLoop .fresh` is what `Run` does pass after pass (`runLoop_cons`) -/
+theorem iteration_eq (d : Bool) (w : Waiter) (it : Iter) :
+    Gen.Waiter.iteration d w it = iteration .fresh d w it := by
+  unfold Gen.Waiter.iteration iteration
+  simp only [Wait_eq, IsSlowDown_eq, DiscardedShootSample_eq, wait, fires]
+  by_cases hf : it.finished = true
+  · simp [hf]
+  · by_cases ha : it.ammoOk = true
+    · by_cases hk : (waitV .fresh w it.env).ok = true
+      · simp [hf, ha, hk]
+      · simp [hf, ha, hk]
+    · simp [hf, ha]
+
+/-- cli/cli.go `readConfig` + core/engine: a pool section without `discard_overflow` runs with `discardOverflow = true`:
+the default is put under the very key the pool option is decoded from, into the `pools` list that is decoded afterwards,
+and the instances' `discardOverflow` is copied from that option and written nowhere else. -/
+theorem cliPoolDiscardOverflow_eq (g : Option Bool) : Gen.Waiter.cliPoolDiscardOverflow g = effectiveDiscard g := by
+  cases g <;> rfl
+
+theorem cli_default_wiring :
+    Gen.Waiter.cliDefaultLookupKey = Gen.Waiter.poolConfigDiscardKey ∧
+    Gen.Waiter.cliDefaultPutKey = Gen.Waiter.poolConfigDiscardKey ∧
+    Gen.Waiter.poolConfigDiscardKey = "discard_overflow" ∧
+    Gen.Waiter.cliPoolsGetKey = "pools" ∧ Gen.Waiter.cliPoolsSetKey = "pools" ∧
+    Gen.Waiter.cliDecodesAfterDefault = true ∧
+    Gen.Waiter.instanceDiscardFrom = ["InstancePoolConfig.DiscardOverflow"] ∧
+    Gen.Waiter.discardFieldAssignments = 0 := by decide
+
 end Pandora.Bridge.Waiter
